@@ -120,7 +120,7 @@ structure St where
   disp : DispPc := .none
   calls : List Call := []             -- call n is calls[n-1]
   unotifs : List Notif := []          -- user Notify processes u0,u1,…
-  cnotifs : List (Nat × Notif) := []  -- detached cancel notifications, keyed by call number
+  cnotifs : List Notif := []          -- detached cancel notifications x0,x1,… (in order of creation; `cancelFor` names the call)
   cores : List ReqCore := []          -- request r is (cores[r], metas[r]) (arrival order)
   metas : List ReqMeta := []
   cancels : List Nat := []            -- Cancel(id) goroutines parked before K1
@@ -190,7 +190,7 @@ def cancelReq (s : St) (r : Nat) (cause : Cause) : St :=
 
 /-- Who is writing: an outgoing call, a user notification, a detached cancel notification, a response. -/
 inductive Who where
-  | call (n : Nat) | unotif (k : Nat) | cnotif (n : Nat) | resp (r : Nat)
+  | call (n : Nat) | unotif (k : Nat) | cnotif (k : Nat) | resp (r : Nat)
 deriving DecidableEq, Repr, Inhabited
 
 inductive WOut where | ok | broken | rejected | ctx
@@ -213,13 +213,13 @@ deriving DecidableEq, Repr, Inhabited
 
 def getNotif (s : St) : Who → Option Notif
   | .unotif k => s.unotifs[k]?
-  | .cnotif n => s.cnotifs.lookup n
+  | .cnotif n => s.cnotifs[n]?
   | _ => none
 
 def setNotif (s : St) (w : Who) (f : Notif → Notif) : St :=
   match w with
   | .unotif k => { s with unotifs := s.unotifs.modify k f }
-  | .cnotif n => { s with cnotifs := s.cnotifs.map fun p => if p.1 = n then (p.1, f p.2) else p }
+  | .cnotif n => { s with cnotifs := s.cnotifs.modify n f }
   | _ => s
 
 /-- After a request's processResult finished (P2 done), whoever ran it continues. -/
@@ -404,7 +404,7 @@ def step0 (s : St) : Label → Option St
         if viaCtx then
           -- call(): spawn the detached notifications/cancelled, return ctx.Err()
           some { (modCall s n fun c => { c with pc := .fin, result := some (.err .ctx) }) with
-                  cnotifs := s.cnotifs ++ [(n, { cancelFor := some n })] }
+                  cnotifs := s.cnotifs ++ [{ cancelFor := some n }] }
         else some (modCall s n fun c => { c with pc := .await })
   | .k1 id =>
     if !s.cancels.contains id then none else
